@@ -75,6 +75,28 @@ def cases(ctx):
                        spec=sign_spec)
 
 
+def refuse_cases(ctx):
+    rng = ctx.rng; names = G.op_names()
+    for _ in range(ctx.n(6, 100)):
+        tx = G.gen_tx(rng, names, kind='legacy', max_in=3, max_out=1, min_out=0, big=False)
+        while len(tx.inputs) < 2 or len(tx.outputs) > 1:
+            tx = G.gen_tx(rng, names, kind='legacy', max_in=3, max_out=1, min_out=0, big=False)
+        i = len(tx.inputs) - 1
+        code = ['OP_DUP', 'OP_HASH160', G.rbytes(rng, 20).hex(), 'OP_EQUALVERIFY', 'OP_CHECKSIG']
+        for ht in (3, 0x83):
+            ctx.count('single-out-of-range')
+            yield Case(f'sign {rng.randrange(1, N)} 0 {tx_to_line(tx)} {i} {toks_str(code)} 0 {ht}', 's', nontrivial=True, tag='sign-refuse',
+                       spec=lambda ans: ('s:raw err', ans))
+    # several keys sign the same digest one after the other through short-lived objects
+    for _ in range(ctx.n(4, 100)):
+        tx = G.gen_tx(rng, names, kind='legacy', max_in=2, max_out=2, min_out=1, big=False)
+        code = ['OP_2', G.rbytes(rng, 33).hex(), G.rbytes(rng, 33).hex(), G.rbytes(rng, 33).hex(), 'OP_3', 'OP_CHECKMULTISIG']
+        ht = rng.choice(TYPES[:2])
+        for d in [rng.randrange(1, N) for _ in range(4)]:
+            ctx.count('same-digest-many-keys')
+            yield Case(f'sign {d} 0 {tx_to_line(tx)} 0 {toks_str(code)} 0 {ht}', 's', nontrivial=True, tag='sign-cosigners', spec=sign_spec)
+
+
 def sign_spec(ans):
     # the implementation returned: final sig, pub, digest, ht, and the per-attempt log; the model must reproduce the
     # final bytes from the log, and the Spec predicate must hold on the final bytes
@@ -82,6 +104,14 @@ def sign_spec(ans):
     f = ans.split(' ')
     sig, pub, digest, ht = f[1], f[2], f[3], f[4]
     return (f's:sig_check {pub} {digest} {sig} {ht}', 'ok 1')
+
+
+_cases0 = cases
+
+
+def cases(ctx):  # noqa: F811
+    yield from _cases0(ctx)
+    yield from refuse_cases(ctx)
 
 
 class Proxy:
